@@ -3,6 +3,7 @@ package checks
 import (
 	"fmt"
 	"math/rand"
+	"strings"
 
 	"verif/engine/batch"
 	"verif/engine/gast"
@@ -44,6 +45,95 @@ func C06(c *Ctx) {
 		StalePS:    "F02-stale-pred-pos",
 	}
 	c.ModelCheck(cfg)
+	c.c06Long()
+}
+
+// c06Long: the linear work bound on long, deeply nested inputs (300-900 bytes) where the
+// unmemoized parse (and the model) would need exponential time: only the real parser runs, under
+// Memoize+Debug, and the number of expression entries in its own Debug trace is compared with
+// #expressions x (len+1); Memoize and Memoize+Statistics must return the same value and errors.
+func (c *Ctx) c06Long() {
+	rng := rand.New(rand.NewSource(c.Seed*53 + 6))
+	act := func(e *gast.Expr, id int) *gast.Expr { return gast.A(e, id, mon.Spec{R: 1}) }
+	arith := &gast.Grammar{Rules: []*gast.Rule{
+		{Name: "S", Expr: gast.S(gast.Ref("Expr"), gast.NotE(gast.Dot()))},
+		{Name: "Expr", Expr: gast.C(act(gast.S(gast.Lab("a", gast.Ref("Term")), gast.L("+"), gast.Lab("b", gast.Ref("Expr"))), 1), act(gast.S(gast.Lab("a", gast.Ref("Term")), gast.L("-"), gast.Lab("b", gast.Ref("Expr"))), 2), gast.Ref("Term"))},
+		{Name: "Term", Expr: gast.C(act(gast.S(gast.L("("), gast.Lab("a", gast.Ref("Expr")), gast.L(")")), 3), act(gast.Plus(gast.Cl(gast.Chars("01"))), 4))},
+	}}
+	gs := []*gast.Grammar{arith, c06Strata()[2], c06Strata()[3]}
+	p := pureProfile()
+	p.PBackRef = 60
+	for i := 0; i < c.N(10, 80); i++ {
+		gs = append(gs, gast.Generate(rng, p))
+	}
+	for _, g := range gs {
+		g.Finalize()
+	}
+	bt := c.BuildUnits(gs, [][]string{{}}, false, nil)
+	defer bt.Close()
+	var cases []*mon.Case
+	info := map[string]*Unit{}
+	for _, u := range bt.Units {
+		if !u.OK {
+			continue
+		}
+		var ins [][]byte
+		for _, d := range []int{120, 300} {
+			ins = append(ins, []byte(strings.Repeat("(", d)+"1"+strings.Repeat(")", d)), []byte(strings.Repeat("(", d)+"1"+strings.Repeat(")", d-1)),
+				[]byte(strings.Repeat("a", 2*d)), []byte(strings.Repeat("ab", d)+"x"))
+		}
+		alpha := u.G.Alphabet()
+		for i := 0; i < 6; i++ {
+			var b []byte
+			want := 300 + rng.Intn(500)
+			for tries := 0; len(b) < want && tries < 400; tries++ {
+				s := u.G.Sentence(rng, u.G.Rules[0].Name, alpha, 9)
+				if len(s) == 0 {
+					s = []byte(string(alpha[rng.Intn(len(alpha))]))
+				}
+				b = append(b, s...)
+			}
+			ins = append(ins, b)
+		}
+		for ii, in := range ins {
+			for oi, o := range [][2]bool{{true, false}, {false, true}, {false, false}} {
+				id := fmt.Sprintf("%s/L%d/%d", u.Pkg, ii, oi)
+				info[id] = u
+				cases = append(cases, &mon.Case{ID: id, Pkg: u.Pkg, Input: in, Memo: true, Debug: o[0], Stats: o[1], MaxExpr: 3000000, MaxEvents: 50})
+			}
+		}
+	}
+	res := bt.Run(cases, batch.RunOpts{})
+	for i := 0; i+2 < len(cases); i += 3 {
+		d, st, pl := res[cases[i].ID], res[cases[i+1].ID], res[cases[i+2].ID]
+		u := info[cases[i].ID]
+		c.Eval(3)
+		if d == nil || st == nil || pl == nil || d.Dbg == nil {
+			c.Inconclusive("no_result")
+			continue
+		}
+		if d.Timeout || st.Timeout || pl.Timeout {
+			c.Inconclusive("watchdog")
+			continue
+		}
+		evals := 0
+		for k, n := range d.Dbg.Kinds {
+			if strings.HasPrefix(k, "parse") && k != "parseRule" && (strings.HasSuffix(k, "Expr") || strings.HasSuffix(k, "Matcher")) {
+				evals += n
+			}
+		}
+		in := cases[i].Input
+		bound := u.G.NExprs * (len(in) + 1)
+		c.CovAdd("long_inputs_checked", 1)
+		c.Distinct(fmt.Sprintf("long/%s/%d", u.Pkg, i))
+		if evals > bound {
+			c.Report(&Violation{Class: "C06/memo-bound-long", Summary: fmt.Sprintf("under Memoize(true) %d expressions were evaluated on an input of %d bytes, more than #expressions x (len+1) = %d x %d = %d; grammar %q", evals, len(in), u.G.NExprs, len(in)+1, bound, gast.Short(u.G)),
+				Grammar: u.Text, Input: in, Case: cases[i]})
+		}
+		if d.Val != pl.Val || st.Val != pl.Val || d.ErrNil != pl.ErrNil || st.ErrNil != pl.ErrNil {
+			c.Report(&Violation{Class: "C06/long-options-differ", Summary: fmt.Sprintf("Memoize with Debug / Statistics / alone disagree on a long input; grammar %q", gast.Short(u.G)), Grammar: u.Text, Input: in, Case: cases[i]})
+		}
+	}
 }
 
 func c06Strata() []*gast.Grammar {
